@@ -237,5 +237,15 @@ theorem decodeBatchN_encode (ms : List Bytes) (r : Bytes) (h : ∀ m ∈ ms, m.l
     simp only [List.nil_append]
     rw [ih (fun x hx => h x (by simp [hx]))]
 
+theorem c05_batch_roundtrip_aux (ms : List Bytes) (hn : ms.length < 256 ^ 8) (hm : ∀ m ∈ ms, m.length < 256 ^ 8) :
+    decodeBatch (encodeBatch ms) = .ok ms := by
+  unfold decodeBatch encodeBatch
+  have h1 : ¬ (beBytes 8 ms.length ++ encodeBatchBody ms).length < 8 := by simp
+  simp only [h1, if_false]
+  rw [List.take_append_of_le_length (by simp), List.take_of_length_le (by simp),
+    List.drop_append_of_le_length (by simp), List.drop_of_length_le (by simp), beNat_beBytes 8 _ hn]
+  have := decodeBatchN_encode ms [] hm
+  simpa using this
+
 end Wire
 end Selium
